@@ -359,10 +359,10 @@ def check_convertnumbers(chk):
 def run(tier, seed):
     chk = Check(PID, tier, seed)
     full = tier == 'thorough'
-    r = tlc.require_ok(tlc.run('FailOnError', cfg='FailOnErrorMC', timeout=900), 'FailOnError')
+    r = tlc.require_ok(tlc.run('FailOnError', cfg='FailOnErrorMCT' if full else 'FailOnErrorMC', timeout=1800), 'FailOnError')
     tlc.check_coverage(r, ['Step', 'Finish'], 'FailOnError')
-    chk.add_tlc(r, 'FailOnError', 'FailOnErrorMC', ['Step', 'Finish'])
-    rg = tlc.run('FailOnError', cfg='FailOnErrorGen', timeout=900, workers=1, coverage=False)
+    chk.add_tlc(r, 'FailOnError', 'FailOnErrorMCT' if full else 'FailOnErrorMC', ['Step', 'Finish'])
+    rg = tlc.run('FailOnError', cfg='FailOnErrorGenT' if full else 'FailOnErrorGen', timeout=1800, workers=1, coverage=False)
     if rg.error or rg.violated:
         raise tlc.MachineryError('FailOnErrorGen: %s' % (rg.error or rg.violated))
     cases = [json.loads(json.loads(l)) for l in rg.prints if l.startswith('"{')]
